@@ -1,5 +1,6 @@
 """C07 — prolog/epilog preserve callee-saved state and keep frame areas disjoint (DESIGN.md section 6, C07)."""
 import re
+from concurrent.futures import ThreadPoolExecutor
 
 import vlib
 
@@ -17,8 +18,8 @@ MANIFEST = {
             "update_func_frame; argument validity = power-of-two alignments <= 64, sizes <= 256 MiB, real GP register), every entry state and "
             "EVERY confined body: prolog;body;epilog returns to the caller's return address with the required sp and every callee-saved "
             "GP/vector/mask/mm register restored, promised alignment and stack-argument offsets inside the body; "
-            "a64_prolog_body_epilog(_api)_partial - the same on AArch64 incl. x29 as SA register with a preserved frame pointer, excluding "
-            "exactly the open finding (dynamic alignment / other SA registers; proved false at its witness); ra_slots_layout + ra_handover - "
+            "a64_prolog_body_epilog(_api) - the same on AArch64 at full strength (dynamic alignment with DA slot or frame pointer, any SA "
+            "register; the former open finding is repaired by fixes/C07-8 and its witness now proved correct); ra_slots_layout + ra_handover - "
             "for every list of stack slots in every order the allocator's slots are aligned, pairwise disjoint, inside [0, stack_size), and after "
             "update_stack_frame inside the finalized frame's local area. Tie: the real CallConv/FuncFrame/update_func_frame/emit_prolog/"
             "emit_epilog/RAStackAllocator run on the same seeded lines as the model (frames, API-call sequences, a sweep over every CallConvId x "
@@ -29,8 +30,8 @@ MANIFEST = {
             "call is executed by the harness and its observed effect is checked against that shape and replayed by the model. The sort of "
             "calculate_stack_frame is not transcribed (theorems hold for every order; the model places in the implementation's order). "
             "BaseRAPass::update_stack_frame itself is not driven (composition of tied pieces; C05 validates compiled programs). Not covered: "
-            "instruction encodability (C01/C02). AArch64 dynamic alignment / foreign SA register is an open finding (C07-a64-dynalign). "
-            "The model follows fixes/C07-1..7.patch; until C07-5..7 are applied the check reports those classes on /repo with concrete replays.",
+            "instruction encodability (C01/C02). No open finding. The model follows fixes/C07-1..8.patch; until C07-8 is applied the check reports the AArch64 dynamic-alignment / "
+            "SA-register class on /repo with concrete replays.",
 }
 MODS = ["AsmjitVerif.Props.C07", "AsmjitVerif.Props.C07Api", "AsmjitVerif.Props.C07RA"]
 
@@ -38,10 +39,9 @@ ARCHN = {0: "x86", 1: "x64", 2: "a64"}
 CCS = {0: [0, 1, 2, 3, 4, 5, 6, 7, 16, 17, 18], 1: [0, 1, 2, 3, 4, 5, 6, 7, 16, 17, 18, 32, 33], 2: [0, 1, 3, 7, 16, 17, 18, 32, 33]}
 BAD_CCS = {0: [8, 30, 32, 33], 1: [8, 30, 31], 2: []}
 ATTR_BITS = [0x10, 0x20, 0x80, 0x10000, 0x20000, 0x40000, 0x80000, 0x100000, 0x1]
-# witness of the open finding C07-a64-dynalign (DESIGN.md section 7, #12)
+# witnesses of the former open finding C07-a64-dynalign (DESIGN.md section 7, #12), repaired by fixes/C07-8
 WITNESS_A64_DA = "frame 2 0 0 0 0 80000 100 0 0 - 0 100 64 0 0 255"
 WITNESS_A64_SA = "frame 2 16 0 0 0 0 0 0 0 - 0 8 8 8 16 15"
-KNOWN_KEY_A64_DA = "a64-no-dynalign-no-sa-reg"
 CORPUS = [
     WITNESS_A64_DA,
     WITNESS_A64_SA,
@@ -201,7 +201,7 @@ def run_ras(res, h, rng, n):
     """RAStackAllocator: model placement in the implementation's sort order + the slot-layout monitor."""
     ops = ["ras 4:4:1:3,16:16:1:1,8:8:1:10,1:1:1:2,32:32:0:0,4:4:3:1,2:2:1:7,100:4:0:0"]
     ops += [gen_ras(rng) for _ in range(n)] + [gen_ras(rng, wild=True) for _ in range(n // 5)]
-    impl, rc, err = vlib.run_lines([str(h)], ops)
+    impl, rc, err = vlib.run_lines([str(h)], ops, timeout=7200)   # generous: a wall-clock timeout would be reported as a violation
     if rc != 0 or len(impl) != len(ops):
         def crashes(c):
             o, r, _ = vlib.run_lines([str(h)], c)
@@ -218,8 +218,8 @@ def run_ras(res, h, rng, n):
         m1.append("rasm %s | %s" % (o[4:], " ".join(t.split(":")[0] for t in w[3:]) or "-"))
         m2.append("rasmon %s | %s" % (o[4:], " ".join(w[1:])))
         idx.append(i)
-    o1, r1, _ = vlib.run_model(PID, m1)
-    o2, r2, _ = vlib.run_model(PID, m2)
+    o1, r1, _ = vlib.run_model(PID, m1, timeout=7200)
+    o2, r2, _ = vlib.run_model(PID, m2, timeout=7200)
     if len(o1) != len(idx) or len(o2) != len(idx):
         res.violation("driver protocol failure on RAStackAllocator ops", {}, False, key="protocol")
         return
@@ -294,24 +294,29 @@ def monitorable(op):
 
 
 def known_key(op, impl_line, reason):
+    """stable key of a violation class; C07 has no open finding any more (C07-a64-dynalign repaired by fixes/C07-8)"""
     w = op.split()
-    arch = int(w[1])
-    if arch == 2 and impl_line.startswith("ok "):
-        f = impl_line[3:].split(" | ")[0].split()
-        min_dyn, final = int(f[7]), int(f[10])
-        fp_sa = int(f[3]) == 29 and (int(f[1]) & 0x10)        # the preserved frame pointer as SA register is supported (C07-7)
-        # exactly the symptoms of the open finding; any other verdict on such a frame keeps its own key and is reported
-        head = reason.split()[0] if reason else ""
-        if final >= min_dyn and head == "body-sp-misaligned":
-            return KNOWN_KEY_A64_DA
-        if (final >= min_dyn or (int(f[3]) != int(f[2]) and not fp_sa)) and head == "stack-args-misplaced":
-            return KNOWN_KEY_A64_DA
-    return "frame:%s:%s" % (reason.split()[0] if reason else "?", ARCHN[arch])
+    return "frame:%s:%s" % (reason.split()[0] if reason else "?", ARCHN[int(w[1])])
+
+
+def run_model_par(lines, workers=4, chunk=20000):
+    """vlib.run_model over chunks in parallel (the driver is stateless per line); keeps wall time low on a loaded machine"""
+    if len(lines) <= chunk:
+        return vlib.run_model(PID, lines, timeout=7200)
+    parts = [lines[i:i + chunk] for i in range(0, len(lines), chunk)]
+    with ThreadPoolExecutor(workers) as ex:
+        res = list(ex.map(lambda c: vlib.run_model(PID, c, timeout=7200), parts))
+    out, rc, err = [], 0, ""
+    for o, r, e in res:
+        out += o
+        if r != 0:
+            rc, err = r, e
+    return out, rc, err
 
 
 def judge(h, ops):
     """Runs harness, model and monitor. Returns (impl, model, mon) lists (mon[i] is None when not judged)."""
-    impl, rc, err = vlib.run_lines([str(h)], ops)
+    impl, rc, err = vlib.run_lines([str(h)], ops, timeout=7200)   # generous: a wall-clock timeout would be reported as a violation
     if rc != 0 or len(impl) != len(ops):
         return None, None, None, (rc, err)
     # the real update_func_frame calls report what they did to the frame; the model replays exactly that
@@ -327,11 +332,11 @@ def judge(h, ops):
                 t = next(obs).split()
                 return "uffr:%s:%s:%s:%s:%s:%d" % (t[0], t[1], t[2], t[3], t[4], 1 if t[5] == "Ok" else 0)
             mops[i] = re.sub(r"uff:\d+:[0-9a-f]+", rep, o)
-    model, rc2, err2 = vlib.run_model(PID, mops)
+    model, rc2, err2 = run_model_par(mops)
     if rc2 != 0 or len(model) != len(ops):
         return impl, None, None, (rc2, err2)
     idx = [i for i, (o, r) in enumerate(zip(ops, impl)) if r.startswith("ok ") and monitorable(o)]
-    mon_out, rc3, err3 = vlib.run_model(PID, ["mon " + impl[i][3:] for i in idx])
+    mon_out, rc3, err3 = run_model_par(["mon " + impl[i][3:] for i in idx])
     if rc3 != 0 or len(mon_out) != len(idx):
         return impl, model, None, (rc3, err3)
     mon = [None] * len(ops)
@@ -500,14 +505,14 @@ def run(res):
             continue
         reported.add(key)
         cnt = sum(1 for j, mm in bad if known_key(ops[j], impl[j], mm[4:]) == key)
-        small = ops[i] if key == KNOWN_KEY_A64_DA else shrink(h, ops[i], reason.split()[0])
+        small = shrink(h, ops[i], reason.split()[0])
         si, _, _ = vlib.run_lines([str(h)], [small])
         res.violation("real prolog/epilog violates C07 on frame %r: monitor says %s (%d such frames in this run); implementation answered %s"
                       % (small, m, cnt, (si[0] if si else "?")[:700]),
                       {"ops": [small], "monitor": m, "original_op": ops[i]}, True, key=key)
     # A correspondence difference is reported unless a violation that is NOT the open finding already explains the same op;
     # a broken obligation is always reported.
-    explained = {i for i, m in bad if known_key(ops[i], impl[i], m[4:]) != KNOWN_KEY_A64_DA}
+    explained = {i for i, m in bad}
     unexplained = [i for i in diffs if i not in explained]
     if unexplained:
         i = unexplained[0]
@@ -523,7 +528,7 @@ def run(res):
 def replay(data):
     ops = data["replay"].get("ops", [])
     h = vlib.build_harness("c07")
-    impl, rc, err = vlib.run_lines([str(h)], ops)
+    impl, rc, err = vlib.run_lines([str(h)], ops, timeout=7200)   # generous: a wall-clock timeout would be reported as a violation
     mon, _, _ = vlib.run_model(PID, [("rasmon %s | %s" % (o[4:], r[3:]) if o.startswith("ras ") else "mon " + r[3:].split(" uff ")[0])
                                      if r.startswith("ok ") else "x" for o, r in zip(ops, impl)])
     for o, r, m in zip(ops, impl, mon):
